@@ -59,6 +59,12 @@ def main(argv):
                 if not why:
                     missed.append(sid)
                 continue
+            if res.get('demo_fails_with_patch') is False and res.get('demo_passes_without_patch'):
+                # the author's own demonstration passes with the change applied to HEAD:
+                # a later fix: commit made the change harmless
+                print('%s no longer breaks the property on HEAD (its demonstration passes with the change applied)' % sid,
+                      flush=True)
+                continue
             ck = res.get('checks', {})
             caught = [p for p, c in ck.items() if c.get('exit') == 1]
             crashed = [p for p, c in ck.items() if c.get('exit') not in (0, 1)]
